@@ -169,7 +169,7 @@ def small_scope(chk, pid, nontrivial_all, cfg=None):
     cfg = cfg or "LegalizeCases_" + chk.tier
     d = vlib.scratch(pid + "-emit")
     out = os.path.join(d, "cases.out")
-    res = vlib.tlc_ok(vlib.tlc("LegalizeCases", cfg=cfg, workers=16, stdout_path=out, timeout=3000, xmx="16g"), cfg)
+    res = vlib.tlc_ok(vlib.tlc("LegalizeCases", cfg=cfg, workers=16, stdout_path=out, timeout=9000, xmx="16g"), cfg)
     if res["violated"]:
         raise vlib.FrameworkError("LegalizeCases: contract operators inconsistent: %s" % res["violated"])
     chk.add_tlc(res, "tlc enumeration of the small legalization scope (" + cfg + ")")
